@@ -9,8 +9,8 @@ LOOP_TB = LEAN_TB + [
 
 LOOP_RUNS = [{
     "component": "loop",
-    "quick": {"gen": [(350, 25)]},
-    "thorough": {"gen": [(6000, 40)]},
+    "quick": {"gen": [(350, 25)], "enum": [["scenarios"]]},
+    "thorough": {"gen": [(6000, 40)], "enum": [["scenarios"]]},
     "timeout": 1500,
 }]
 
@@ -18,7 +18,12 @@ LOOP_RULE = ("scripts = 2-9 objects on one IO context (TCP connections against a
              "timers, listener, packet conn, regular file) and 4-40 random actions: start read/readall/write/writeall/accept/recvfrom/sendto "
              "(one per direction and object in flight), handler programs that re-issue, cancel, close or re-arm the same or another object, "
              "inline chains of up to 70 operations (chain=), IO.Dispatched forced to 31/32, Cancel, Close, ScheduleOnce/Repeating/Cancel, Post, "
-             "peer writes / half-close / close / RST / FIFO hang-up, PollOne, Pending(); a final drain phase makes every in-flight operation "
+             "peer writes / half-close / close / RST / FIFO hang-up, PollOne, RunOneFor / RunOne / RunPending with and without a signal aimed at the "
+             "loop thread, Pending(); plus ~230 fixed scenario scripts (harness `loop enum scenarios`: an operation deferred only by the dispatch "
+             "limit after one with another buffer, for every object kind and operation variant and limit 31/32/33; ReadAll/WriteAll meeting a "
+             "partial transfer and then more data / close / half-close / RST; interrupted waits; RunOne/RunPending with every kind of operation "
+             "in flight; close/cancel with both directions in flight; two completions of one epoll batch whose first handler closes or cancels "
+             "the other object); a final drain phase makes every in-flight operation "
              "completable and polls until nothing moves; a script is non-trivial when the monitor saw a non-default situation (deferred "
              "completion, batch of several handlers, cancel/close in flight, nested start, depth at the limit, eof/error result, timer, post, "
              "partial transfer); distinct = by SHA-1 of the implementation trace")
@@ -39,8 +44,12 @@ PROP = {
     "rule": LOOP_RULE,
     "trusted_base": LOOP_TB,
     "assumptions": [
-        "epoll_ctl failures are provoked only through descriptors epoll refuses (regular files); EINTR is not provoked in the trace check "
-        "(its mapping is proved as decision logic over a mirror of io.go's poll)",
+        "epoll_ctl failures are provoked only through descriptors epoll refuses (regular files); a wait interrupted by a signal is "
+        "provoked with tgkill(SIGUSR1) aimed at the loop thread while it is blocked in RunOneFor / RunOne / RunPending (and its mapping is "
+        "also proved as decision logic over a mirror of io.go's poll)",
+        "RunOne / RunPending are called only when every operation in flight can complete without further stimulus (peers fed first, no "
+        "repeating timer, no handler program that starts more work); a call that still has not returned after 4 s plus the longest timer "
+        "delay is broken out of by a watchdog and reported as poll-run-did-not-return",
         "the ledger the monitor compares Pending() with counts operations by their API-level life cycle, not by interest bits",
     ],
     "manifest": {
